@@ -20,6 +20,7 @@ import (
 	"regexp"
 	"sort"
 	"strings"
+	"time"
 
 	"github.com/inspirer/textmapper/grammar"
 	"github.com/inspirer/textmapper/syntax"
@@ -122,6 +123,10 @@ func enumerate() []cand {
 			add("S2", "S -> @ROOT@ :\n    "+p.String()+" "+q.String()+" ;\n")
 		}
 	}
+	// ... and a nullable arrow (possibly empty node) as the last part
+	for _, p := range p1 {
+		add("S2", "S -> @ROOT@ :\n    "+p.String()+" XE ;\n")
+	}
 	// S3: two alternatives under one arrow (a field present in only one alternative is nullable).
 	for _, p := range p1 {
 		for _, q := range p2c {
@@ -161,7 +166,7 @@ func enumerate() []cand {
 		}
 	}
 	// S7: an inner arrow around a part, next to another part.
-	p7 := []part{{"", "X", ""}, {"f=", "X", ""}, {"", "X", "?"}, {"", "Y", "*"}, {"", "ta", ""}, {"f=", "E", ""}}
+	p7 := []part{{"", "X", ""}, {"f=", "X", ""}, {"", "X", "?"}, {"", "Y", "*"}, {"", "ta", ""}, {"f=", "E", ""}, {"", "XE", ""}}
 	for _, wrap := range []string{"f=(%s -> In)", "(%s -> In)", "(%s -> In)?", "(%s -> In)+"} {
 		for _, p := range p7 {
 			for _, q := range p7 {
@@ -722,7 +727,12 @@ type batchStats struct{ builds int }
 // The oracle
 // ---------------------------------------------------------------------------------------------
 
-type finding struct{ key, what string }
+type finding struct {
+	key, what string
+	it        *item
+	text      string
+	ti        int // index of the input among the grammar's inputs (-1: none)
+}
 
 // gramInfo is what the check derives from the compiled grammar (the declarations under test).
 type gramInfo struct {
@@ -814,12 +824,12 @@ func panicClass(msg string) string {
 
 // checkTree applies the property to one walked tree. It returns the findings (first per key)
 // and the number of accessor calls checked.
-func checkTree(gi *gramInfo, res genharness.Result, ex *exercise) (fs []finding, calls int64, nodes []vNode) {
+func checkTree(gi *gramInfo, text string, res genharness.Result, ex *exercise) (fs []finding, calls int64, nodes []vNode) {
 	seen := map[string]bool{}
 	add := func(key, format string, args ...any) {
 		if !seen[key] {
 			seen[key] = true
-			fs = append(fs, finding{key, fmt.Sprintf(format, args...)})
+			fs = append(fs, finding{key: key, what: fmt.Sprintf(format, args...)})
 		}
 	}
 	if len(res.Values) == 0 {
@@ -834,11 +844,33 @@ func checkTree(gi *gramInfo, res genharness.Result, ex *exercise) (fs []finding,
 	// empty range sitting exactly at the end offset of a node? Used to refine keys only.
 	emptyAtEndOf := func(n *vNode, types map[string]bool) bool {
 		for _, e := range res.Events {
-			if e.Off == e.End && e.Off == n.End && (types == nil || types[e.Type]) {
+			if e.Off == e.End && e.Off >= n.End && e.Off <= len(text) && types[e.Type] && strings.TrimSpace(text[n.End:e.Off]) == "" {
 				return true
 			}
 		}
 		return false
+	}
+	// An empty child that no accessor of its parent returns: does it sit right after the end
+	// of a node on the rightmost path of its previous sibling which declares a field of that
+	// type? Then it was meant to be the last child of that node (same root cause).
+	belongsToLeftNeighbour := func(parent *vNode, k int) bool {
+		if k == 0 {
+			return false
+		}
+		ch := &nodes[parent.Kids[k]]
+		for d := &nodes[parent.Kids[k-1]]; ; {
+			if rt := gi.types[d.Type]; rt != nil && d.End <= ch.Off && ch.Off <= len(text) && strings.TrimSpace(text[d.End:ch.Off]) == "" {
+				for _, f := range rt.Fields {
+					if gi.expand(f.Selector)[ch.Type] {
+						return true
+					}
+				}
+			}
+			if len(d.Kids) == 0 {
+				return false
+			}
+			d = &nodes[d.Kids[len(d.Kids)-1]]
+		}
 	}
 	for i := range nodes {
 		n := &nodes[i]
@@ -904,19 +936,19 @@ func checkTree(gi *gramInfo, res genharness.Result, ex *exercise) (fs []finding,
 			switch a.Kind {
 			case "single":
 				if len(a.Ret) != 1 || !a.Ret[0].Valid {
-					sub := ""
+					key := "accessor:required-absent"
 					if emptyAtEndOf(n, allowed) {
-						sub = ":empty-node-at-end-of-parent"
+						key = "empty-node-at-end-of-parent:required-accessor-absent"
 					}
-					add("accessor:required-absent"+sub, "%s of %s returns an absent node although the field is required", acc, where)
+					add(key, "%s of %s returns an absent node although the field is required", acc, where)
 				}
 			case "list":
 				if f.IsRequired && len(a.Ret) == 0 {
-					sub := ""
+					key := "accessor:required-absent"
 					if emptyAtEndOf(n, allowed) {
-						sub = ":empty-node-at-end-of-parent"
+						key = "empty-node-at-end-of-parent:required-accessor-absent"
 					}
-					add("accessor:required-absent"+sub, "%s of %s returns an empty list although the field is required (one or more)", acc, where)
+					add(key, "%s of %s returns an empty list although the field is required (one or more)", acc, where)
 				}
 				if ex.listLens[n.Type+"."+a.Name] == nil {
 					ex.listLens[n.Type+"."+a.Name] = map[int]bool{}
@@ -964,11 +996,11 @@ func checkTree(gi *gramInfo, res genharness.Result, ex *exercise) (fs []finding,
 				continue
 			}
 			if !covered[k] {
-				sub := ""
-				if ch.Off == ch.End {
-					sub = ":empty-node"
+				key := "accessor:child-not-returned"
+				if ch.Off == ch.End && belongsToLeftNeighbour(n, k) {
+					key = "empty-node-at-end-of-parent:attached-to-wrong-parent"
 				}
-				add("accessor:child-not-returned"+sub, "%s: child #%d %s[%d,%d) is returned by no accessor (declared fields: %s)", where, k, ch.Type, ch.Off, ch.End, rt.Descriptor())
+				add(key, "%s: child #%d %s[%d,%d) is returned by no accessor (declared fields: %s)", where, k, ch.Type, ch.Off, ch.End, rt.Descriptor())
 			}
 		}
 	}
@@ -994,11 +1026,10 @@ func rejectClass(msg string) string {
 }
 
 // checkItem checks all results of one built grammar; returns whether the grammar counts as
-// non-trivial.
+// non-trivial, and the findings (not yet reported: run() reports them simplest-first).
 func checkItem(c *core.Ctx, it *item) (nontrivial bool, fs []finding) {
-	report := func(key, what, text string) {
-		fs = append(fs, finding{key, what})
-		c.Violate(key, what, c21Case{Name: it.Name, Shape: it.Cand.Shape, Variant: it.Variant.Name, TM: it.TM, Text: text})
+	report := func(key, what, text string, ti int) {
+		fs = append(fs, finding{key: key, what: what, it: it, text: text, ti: ti})
 	}
 	if it.buildErr != "" {
 		key := "generated-code-does-not-build"
@@ -1008,7 +1039,7 @@ func checkItem(c *core.Ctx, it *item) (nontrivial bool, fs []finding) {
 		case strings.Contains(it.buildErr, "walker/scratch module"):
 			key = "harness:walker-does-not-build"
 		}
-		report(key, it.buildErr, "")
+		report(key, it.buildErr, "", -1)
 		return false, fs
 	}
 	gi := newGramInfo(it.g)
@@ -1018,7 +1049,7 @@ func checkItem(c *core.Ctx, it *item) (nontrivial bool, fs []finding) {
 		text := it.Inputs[i]
 		switch {
 		case res.Panic != "" || res.Hang || res.Aborted:
-			report("parse:crash-or-hang", fmt.Sprintf("ast.Parse/walk on %q: panic=%q hang=%v", text, res.Panic, res.Hang), text)
+			report("parse:crash-or-hang", fmt.Sprintf("ast.Parse/walk on %q: panic=%q hang=%v", text, res.Panic, res.Hang), text, i)
 			continue
 		case res.Extra != nil && res.Extra["skipped"] != nil:
 			c.Outcome("skipped-after-driver-death", 1)
@@ -1027,7 +1058,7 @@ func checkItem(c *core.Ctx, it *item) (nontrivial bool, fs []finding) {
 			c.Outcome("syntax-error", 1)
 			continue
 		case !res.Accept && res.ErrOff == -2:
-			report("harness:no-runner", res.ErrMsg, text)
+			report("harness:no-runner", res.ErrMsg, text, i)
 			continue
 		case !res.Accept:
 			// ast.Parse refused to build a tree for a sentence (e.g. "exactly one root node is
@@ -1038,9 +1069,9 @@ func checkItem(c *core.Ctx, it *item) (nontrivial bool, fs []finding) {
 		accepted++
 		c.Outcome("tree-walked", 1)
 		if res.ErrMsg != "" {
-			report("harness:listener-parse-disagrees", res.ErrMsg, text)
+			report("harness:listener-parse-disagrees", res.ErrMsg, text, i)
 		}
-		found, calls, nodes := checkTree(gi, res, ex)
+		found, calls, nodes := checkTree(gi, text, res, ex)
 		c.Eval(calls)
 		c.Add("nodes_walked", int64(len(nodes)))
 		// listener events that did not make it into the tree (diagnostic counter only)
@@ -1054,7 +1085,7 @@ func checkItem(c *core.Ctx, it *item) (nontrivial bool, fs []finding) {
 			}
 		}
 		for _, f := range found {
-			report(f.key, fmt.Sprintf("input %q: %s", text, f.what), text)
+			report(f.key, fmt.Sprintf("input %q: %s", text, f.what), text, i)
 		}
 		if c.SampleCount() < 8 && accepted == 2 {
 			c.Sample(map[string]any{"grammar": it.Cand.Rules, "variant": it.Variant.Name, "input": text, "nodes": len(nodes)})
@@ -1080,6 +1111,29 @@ func variantFor(cd cand) variant {
 	return variants[int(h.Sum32()%uint32(len(variants)))]
 }
 
+// seeds are members of the enumeration that are always run first (one per mechanism), so that
+// even a run cut short by the budget exercises every mechanism once.
+var seeds = []string{
+	"S -> @ROOT@ :\n    f=X g=X* ;\n",                                             // list fetched after a single field of the same type (Child.NextAll)
+	"S -> @ROOT@ :\n    f=X g=X? ;\n",                                             // optional fetched after a single (Child.Next)
+	"S -> @ROOT@ :\n    f=X\n  | g=Y\n;\n",                                        // fields present in one alternative only
+	"S -> @ROOT@ :\n    X (f=Y | td) ;\n",                                         // nested choice
+	"S -> @ROOT@ :\n    f=X f=Y ;\n",                                              // repeated field -> list of two types
+	"S -> @ROOT@ :\n    X X X ;\n",                                                // repeated unnamed field -> list
+	"S -> @ROOT@ :\n    E+ ;\n",                                                   // list of a category
+	"S -> @ROOT@ :\n    f=E g=X? ;\n",                                             // category next to an overlapping type
+	"S -> @ROOT@ :\n    Z? ;\n",                                                   // two types without a category
+	"S -> @ROOT@ :\n    f=(tc separator td)* ;\n",                                 // list of injected terminals
+	"S -> @ROOT@ :\n    V* ;\n",                                                   // nodes with own fields
+	"S -> @ROOT@ :\n    f=W ;\n",                                                  // recursive list nonterminal
+	"S -> @ROOT@ :\n    f=(X -> In) Y* ;\n",                                       // inner arrow
+	"S -> @ROOT@ :\n    (f=X Y* separator td)+ ;\n",                               // list over a two-part body
+	"S -> @ROOT@ :\n    T+ ;\nT -> Top :\n    ta X -> R1\n  | tb f=Y? -> R2\n;\n", // list of a category of nodes with fields
+	"S -> @ROOT@ :\n    f=X g=X h=X? ;\n",                                         // FetchAfter chain of three
+	"S -> @ROOT@ :\n    Y XE ;\n",                                                 // nullable arrow at the end
+	"S -> @ROOT@ :\n    XE Y ;\n",                                                 // nullable arrow at the start
+}
+
 func run(c *core.Ctx) {
 	c.Rule("grammars: 8 rule shapes over parts [field=][atom][? + * separator-lists], atoms = plain terminal, nonterminals with arrows (one type, two types, category, nullable arrow, recursive list, node with own fields), inline arrow, injected terminal; one of 8 option variants per grammar (fileNode, tokenStream, fixWhitespace, cancellable, genSelector, extraTypes, injected comment) chosen by a hash of the rule text; inputs: all strings of length <= 4 over the grammar's alphabet, kept when ast.Parse accepts; evaluation = one field accessor call checked against its declaration; a grammar is non-trivial when an optional field was seen present and absent AND a list field was seen with two different lengths")
 	c.Assume("the walker driver uses reflection over the generated ast package (factory To<Name>Node, all exported zero-argument methods); node identity is pointer identity of *ast.Node")
@@ -1091,6 +1145,9 @@ func run(c *core.Ctx) {
 	if c.Quick() {
 		target = 300
 	}
+	// Order: the seeds, then the selected candidates in `passes` interleaved passes (pass p takes
+	// every passes-th selected candidate starting at p), so that a run cut short by the budget
+	// has still covered all shapes evenly. Findings are reported simplest-first at the end.
 	var sel []int
 	if target >= len(cands) {
 		for i := range cands {
@@ -1100,18 +1157,50 @@ func run(c *core.Ctx) {
 		for i := 0; i < target; i++ {
 			sel = append(sel, i*len(cands)/target)
 		}
-		c.Capped(fmt.Sprintf("stride sample: %d of %d enumerated candidate grammars", target, len(cands)))
+		c.Capped(fmt.Sprintf("stride sample: %d of %d enumerated candidate grammars (plus %d seeds)", target, len(cands), len(seeds)))
 	}
-	c.Set("candidates_selected", len(sel))
+	byRules := map[string]int{}
+	for i, cd := range cands {
+		byRules[cd.Rules] = i
+	}
+	var order []int
+	inOrder := map[int]bool{}
+	for _, s := range seeds {
+		ci, ok := byRules[s]
+		if !ok {
+			c.Violate("harness:seed-not-in-enumeration", s, nil)
+			continue
+		}
+		if !inOrder[ci] {
+			inOrder[ci] = true
+			order = append(order, ci)
+		}
+	}
+	passes := (len(sel) + 79) / 80
+	for p := 0; p < passes; p++ {
+		for k := p; k < len(sel); k += passes {
+			if ci := sel[k]; !inOrder[ci] {
+				inOrder[ci] = true
+				order = append(order, ci)
+			}
+		}
+	}
+	c.Set("candidates_selected", len(order))
+
+	var all []finding
 	var pending []*item
 	stats := &batchStats{}
+	perItem := time.Duration(0) // measured wall time per built grammar
 	flush := func() {
 		if len(pending) == 0 {
 			return
 		}
+		t0 := time.Now()
 		runItems(pending, stats)
+		perItem = time.Since(t0) / time.Duration(len(pending))
 		for _, it := range pending {
-			nt, _ := checkItem(c, it)
+			nt, fs := checkItem(c, it)
+			all = append(all, fs...)
 			if it.buildErr == "" {
 				c.Add("grammars_built", 1)
 				c.Add("grammars_built_"+it.Cand.Shape, 1)
@@ -1123,10 +1212,12 @@ func run(c *core.Ctx) {
 		}
 		pending = pending[:0]
 	}
+	// The first batch holds the seeds only (its duration calibrates the following batch sizes:
+	// the machine is shared, a build takes between 0.3 s and 6 s per grammar).
+	limit := len(seeds)
 	done := 0
-	for _, ci := range sel {
+	for _, ci := range order {
 		if c.Expired() {
-			c.Capped(fmt.Sprintf("budget: stopped after %d of %d selected candidates", done, len(sel)))
 			break
 		}
 		done++
@@ -1136,7 +1227,7 @@ func run(c *core.Ctx) {
 		tm := tmText(cd, v, name)
 		g, _, genErr, genPanic := genharness.Generate(name, tm)
 		if genPanic != "" {
-			c.Violate("generate:panic", genPanic, c21Case{Name: name, Shape: cd.Shape, Variant: v.Name, TM: tm})
+			all = append(all, finding{key: "generate:panic", what: genPanic, it: &item{Idx: ci, Name: name, Cand: cd, Variant: v, TM: tm}, ti: -1})
 			continue
 		}
 		if genErr != "" {
@@ -1150,12 +1241,36 @@ func run(c *core.Ctx) {
 		}
 		it := &item{Idx: ci, Name: name, Cand: cd, Variant: v, TM: tm, Inputs: allStrings(alphabet(tm), L)}
 		pending = append(pending, it)
-		if len(pending) >= batchSize {
+		if len(pending) >= limit {
 			flush()
+			// size of the next batch: what fits into the remaining budget, within [8, batchSize]
+			remaining := time.Until(c.Deadline)
+			limit = batchSize
+			if perItem > 0 {
+				if fit := int(remaining * 8 / 10 / perItem); fit < limit {
+					limit = fit
+				}
+			}
+			if limit < 8 {
+				break
+			}
 		}
 	}
-	flush()
+	if done == len(order) {
+		flush()
+	} else {
+		c.Capped(fmt.Sprintf("budget: stopped after %d of %d selected candidates (%v per built grammar on this machine)", done, len(order), perItem.Round(10*time.Millisecond)))
+	}
 	c.Set("go_builds", stats.builds)
+	sort.SliceStable(all, func(i, j int) bool {
+		if all[i].it.Idx != all[j].it.Idx {
+			return all[i].it.Idx < all[j].it.Idx
+		}
+		return all[i].ti < all[j].ti
+	})
+	for _, f := range all {
+		c.Violate(f.key, f.what, c21Case{Name: f.it.Name, Shape: f.it.Cand.Shape, Variant: f.it.Variant.Name, TM: f.it.TM, Text: f.text})
+	}
 }
 
 var nameRe = regexp.MustCompile(`(?m)^language (\w+)\(go\);`)
